@@ -81,12 +81,13 @@ func SEC1Verdict(c *wcurve.Curve, b []byte) Verdict {
 // SEC1Options selects the size of the alphabet.
 type SEC1Options struct {
 	FlipBases int
+	Special   int // this many more curve points with the smallest x (class "special")
 }
 
 // sec1SmallX returns the first `want` curve points with x = 0, 1, 2, ...
 func sec1SmallX(c *wcurve.Curve, want int) []wcurve.Point {
 	var out []wcurve.Point
-	for j := int64(0); j < 200 && len(out) < want; j++ {
+	for j := int64(0); j < 400 && len(out) < want; j++ {
 		if P, _, ok := c.LiftX(c.F.Int(j)); ok {
 			out = append(out, P)
 		}
@@ -175,10 +176,14 @@ func SEC1Cases(c *wcurve.Curve, format int, opt SEC1Options) []Case {
 		}
 	}
 	// valid points with tiny x, and their aliases x+p (always fit)
-	for i, P := range sec1SmallX(c, 3) {
+	for i, P := range sec1SmallX(c, 3+opt.Special) {
 		for _, Q := range []wcurve.Point{P, c.Neg(P)} {
 			enc := SEC1Encode(c, Q, comp)
 			nm := fmt.Sprintf("smallx%d/y%d", i, Q.Y.A.Bit(0))
+			if i >= 3 {
+				out = append(out, Case{"special/" + nm, "special", enc})
+				continue
+			}
 			out = append(out, Case{"valid/" + nm, "valid", enc})
 			out = append(out, Case{"alias/" + nm + "/slot0", "alias", put(enc, 0, new(big.Int).Add(Q.X.A, p))})
 			if !comp {
